@@ -60,6 +60,11 @@ Definition symmetricb (g : graph) : bool :=
 Definition rows_in_range (g : graph) : bool :=
   forallb (fun r => forallb (fun e => Nat.ltb (fst e) (length g)) r) g.
 
+Definition nbrs_symb (g : graph) : bool :=
+  forallb (fun v => forallb (fun u => existsb (Nat.eqb v) (nbrs g u)) (nbrs g v)) (seq 0 (length g)).
+(* decides [graph_ok] below *)
+Definition graph_okb (g : graph) : bool := nbrs_symb g && symmetricb g && rows_in_range g.
+
 (* ---- the cap: `max_part_weight` of arc_swap (W = i64) ---- *)
 
 Definition in_i64 (z : Z) : bool := (- 2 ^ 63 <=? z) && (z <? 2 ^ 63).
@@ -585,3 +590,49 @@ Fixpoint replay (cf : config) (st : gstate) (tr : list event) : option gstate :=
 
 Definition md_list (m : metadata) : list Z :=
   [md_gain m; md_pass m; md_attempts m; md_moves m; md_races m; md_locked m; md_nogain m; md_badbal m].
+
+(* ------------------------------------------ vocabulary of the C05 theorems *)
+
+(* the f64 share, accepted only where it is the exact integer quotient (else: panic-like [None],
+   which makes the replay of a run fail): the runs use this function, so that the run-time
+   arithmetic is IEEE and the theorems' premise on the share is proved rather than assumed *)
+Definition headroom_checked (d : Z) (tc : nat) : option Z :=
+  match headroom_f64 d tc with
+  | Some a => if a =? Z.quot d (Z.of_nat tc) then Some a else None
+  | None => None
+  end.
+
+(* never more than a 1/tc share of a headroom, never a positive share of a negative one *)
+Definition hr_ok (cf : config) : Prop :=
+  forall d h, cf_hr cf d (cf_tc cf) = Some h ->
+    (0 <= d -> 0 <= h /\ Z.of_nat (cf_tc cf) * h <= d) /\ (d <= 0 -> h <= 0).
+
+(* an undirected weighted multigraph on the vertices 0..n-1 *)
+Record graph_ok (g : graph) : Prop := {
+  go_nbrs : forall v u, In u (nbrs g v) -> In v (nbrs g u);
+  go_wt : forall a b, wt g a b = wt g b a;
+  go_range : forall a u, In u (nbrs g a) -> (u < length g)%nat
+}.
+
+(* the worker holds lock v and has read every neighbour lock of v as free
+   (it is evaluating, applying or has just applied a move of v) *)
+Definition critical_on (p : pc) : option nat :=
+  match p with
+  | POwn v => Some v
+  | PGain v _ _ _ _ _ _ => Some v
+  | PStore v _ _ _ => Some v
+  | PUnlock v URaced => None
+  | PUnlock v _ => Some v
+  | _ => None
+  end.
+
+Definition adjacent (g : graph) (v u : nat) : Prop := v = u \/ In u (nbrs g v) \/ In v (nbrs g u).
+
+Definition no_adjacent_critical (g : graph) (st : gstate) : Prop :=
+  forall t t' w w' v u, t <> t' ->
+    nth_opt (g_ws st) t = Some w -> nth_opt (g_ws st) t' = Some w' ->
+    critical_on (w_pc w) = Some v -> critical_on (w_pc w') = Some u -> ~ adjacent g v u.
+
+(* what the Metadata will report: completed passes + the running workers *)
+Definition total_gain (st : gstate) : Z := md_gain (g_md st) + sumZ (map (fun w => md_gain (w_md w)) (g_ws st)).
+Definition total_moves (st : gstate) : Z := md_moves (g_md st) + sumZ (map (fun w => md_moves (w_md w)) (g_ws st)).
